@@ -516,6 +516,7 @@ func part2(tier, goose, work string, acc *ev.Acc, only string) {
 		"bodyless_func":      "package q\n\n// implemented in assembly\nfunc External(x uint64) uint64\n\nfunc Ok() uint64 {\n\treturn 1\n}\n",
 		"anon_struct_func":   "package q\n\ntype T struct {\n\tin struct {\n\t\tf func() uint64\n\t}\n}\n\nfunc Use(t *T) uint64 {\n\treturn t.in.f()\n}\n",
 		"generic_append":     "package q\n\nfunc Push[S ~[]uint64](s S) S {\n\treturn append(s, 1)\n}\n",
+		"generic_deref":      "package q\n\nfunc Load[P ~*uint64](p P) uint64 {\n\treturn *p\n}\n",
 		"local_util_dprintf": "",
 	}
 	var shapeNames []string
